@@ -292,7 +292,8 @@ class Concretiser:
             for i, b in enumerate(n["brs"]):
                 name = "wx:if" if i == 0 else "wx:elif"
                 out.append(self.wrap_dir([self.attr_text(name, b["c"])], b["ch"]))
-                if not self.plain and self.rnd.random() < 0.3:
+                # only BETWEEN branches: after the last one the filler would join a following text node
+                if not self.plain and self.rnd.random() < 0.3 and (i < len(n["brs"]) - 1 or n["hasElse"]):
                     out.append(self.rnd.choice(["\n", " ", "<!-- between -->"]))
             if n["hasElse"]:
                 out.append(self.wrap_dir(["wx:else"], n["els"]))
